@@ -46,7 +46,7 @@ static const rtosc::Ports lin_ports = {
     {"dup:i", "", 0, hit}, {"dup:f", "", 0, hit}, {"dup:s", "", 0, hit}, {"other:", "", 0, hit}, {"any", "", 0, hit},
     {"big:", "", 0, [](const char *, rtosc::RtData &d) { d.reply("/big-reply", "s", g_big); }},
 };
-static const rtosc::Ports enum_ports = { {"ch#16/gain:i", "", 0, hit}, {"ch#16/mute:T:F", "", 0, hit}, {"bus#4:i", "", 0, hit} };
+static const rtosc::Ports enum_ports = { {"ch#16/gain:i", "", 0, hit}, {"ch#16/mute:T:F", "", 0, hit}, {"bus#4:i", "", 0, hit}, {"envelope_point_dt#8:i", "", 0, hit}, {"oscillator_bank#12/level:i", "", 0, hit} };
 static const rtosc::Ports long_sub_ports = { {"inner_parameter_with_a_long_name:i", "", 0, hit}, {"x:i", "", 0, hit} };
 static const rtosc::Ports hashed_ports = { {"a_port_name_longer_than_sixteen_characters:i", "", 0, hit}, {"another_quite_long_port_name_for_the_hash:f", "", 0, hit}, {"subtree_with_a_long_name/", "", &long_sub_ports, [](const char *m, rtosc::RtData &d) { while (*m && *m != '/') ++m; if (*m) ++m; long_sub_ports.dispatch(m, d); }}, {"alpha:i", "", 0, hit}, {"beta:i", "", 0, hit}, {"gamma:f", "", 0, hit}, {"delta:", "", 0, hit}, {"epsilon:s", "", 0, hit}, {"zeta:ii", "", 0, hit}, {"eta:b", "", 0, hit}, {"theta", "", 0, hit} };
 static Counter g_cap_a, g_cap_b, g_cap_c;
@@ -134,7 +134,7 @@ struct RtWorld : World {
                     len = rtosc_message(buf, sizeof buf, nm_[r.below(14)], "i", 1); stat_add(F_NO_MATCH); break; }
                 case M_DEEP: len = r.chance(0.5) ? rtosc_message(buf, sizeof buf, "/deep/b/c/x", "i", (int)r.below(20) - 5) : rtosc_message(buf, sizeof buf, r.chance(0.5) ? "/deep/b/c/x" : "/deep/b/y", ""); break;
                 case M_LIN: { int w = (int)r.below(6); len = w == 0 ? rtosc_message(buf, sizeof buf, "/lin/dup", "i", 7) : w == 1 ? rtosc_message(buf, sizeof buf, "/lin/dup", "f", 1.0) : w == 2 ? rtosc_message(buf, sizeof buf, "/lin/dup", "s", "x") : w == 3 ? rtosc_message(buf, sizeof buf, "/lin/other", "") : w == 4 ? rtosc_message(buf, sizeof buf, "/lin/dup", "h", (int64_t)1) : rtosc_message(buf, sizeof buf, "/lin/any", "TFNI"); break; }
-                case M_ENUM: snprintf(addr, sizeof addr, r.chance(0.5) ? "/enum/ch%d/gain" : "/enum/bus%d", (int)r.below(20)); len = rtosc_message(buf, sizeof buf, addr, "i", 3); break;
+                case M_ENUM: { static const char *f_[] = {"/enum/ch%d/gain", "/enum/bus%d", "/enum/envelope_point_dt%d", "/enum/oscillator_bank%d/level"}; snprintf(addr, sizeof addr, f_[r.below(4)], (int)r.below(20)); len = rtosc_message(buf, sizeof buf, addr, "i", 3); break; }
                 case M_HASH: { static const char *h[] = {"/hash/alpha", "/hash/beta", "/hash/gamma", "/hash/delta", "/hash/epsilon", "/hash/zeta", "/hash/eta", "/hash/theta", "/hash/a_port_name_longer_than_sixteen_characters", "/hash/another_quite_long_port_name_for_the_hash", "/hash/subtree_with_a_long_name/inner_parameter_with_a_long_name", "/hash/subtree_with_a_long_name/x", "/hash/a_port_name_longer_than_sixteen_characterz", "/hash/subtree_with_a_long_name/nope"}; int w = (int)r.below(14);
                     len = w == 2 ? rtosc_message(buf, sizeof buf, h[w], "f", 1.0) : w == 3 ? rtosc_message(buf, sizeof buf, h[w], "") : w == 4 ? rtosc_message(buf, sizeof buf, h[w], "s", "e") : w == 5 ? rtosc_message(buf, sizeof buf, h[w], "ii", 1, 2) : w == 6 ? rtosc_message(buf, sizeof buf, h[w], "b", 3, "abc") : w == 9 ? rtosc_message(buf, sizeof buf, h[w], "f", 2.0) : rtosc_message(buf, sizeof buf, h[w], "i", 1); break; }
                 case M_CLONE: { static const char *c_[] = {"/clone/alpha", "/clone/unknown-name", "/clone/beta", "/clone2/beta", "/clone2/unknown-name", "/clone2/alph", "/clone2/a_port_name_longer_than_sixteen_characterz"}; len = rtosc_message(buf, sizeof buf, c_[r.below(7)], "i", 1); break; }
